@@ -109,6 +109,34 @@ RELEVANT = {
 }
 
 
+def valid_tx_dgram(b):
+    """a well-formed TRXD Tx datagram: version 0/1, reserved bit clear, TN 0..7, FN of the hyperframe, 148 or 444 hard bits 0/1
+    (optionally followed by the two legacy padding octets)"""
+    H = 2715648
+    if len(b) < 6 or (b[0] >> 4) not in (0, 1) or (b[0] & 0x08):
+        return False
+    if int.from_bytes(b[1:5], "big") >= H:
+        return False
+    n = len(b) - 6
+    return n in (148, 150, 444, 446) and set(b[6:6 + (148 if n < 444 else 444)]) <= {0, 1}
+
+
+def has_malformed_burst(line, upto=None):
+    ops = line.split(" | ", 1)[-1].split(" ; ")
+    for op in (ops if upto is None else ops[:upto + 1]):
+        t = op.split()
+        if len(t) == 3 and t[0] == "D":
+            try:
+                if not valid_tx_dgram(bytes.fromhex(t[2]) if t[2] != "-" else b""):
+                    return True
+            except ValueError:
+                return True
+    return False
+
+
+DECIMAL = re.compile(r"[+-]?[0-9]+")
+
+
 def domain_of(prop):
     """the domain predicate of the correspondence for one of the world properties: a difference between code and model is
     inside the property's domain unless (a) a known verb was sent in an undocumented form up to the first divergence, or
@@ -118,12 +146,28 @@ def domain_of(prop):
     rel = RELEVANT.get(prop)
 
     def pred(line, impl_answer, model_answer):
+        fd = first_diff(line, impl_answer, model_answer) or {}
+        idx = fd.get("op_index")
+        # a data datagram that is no well-formed Tx message (up to the divergence): how it is dropped is C14's subject
+        if has_malformed_burst(line, upto=idx if isinstance(idx, int) else None):
+            return False
+        if prop == "C05":
+            # C05 speaks about commands whose arguments are written as decimal integers
+            if isinstance(idx, int):
+                try:
+                    t = line.split(" | ", 1)[1].split(" ; ")[idx].split()
+                    if len(t) == 4 and t[0] == "C":
+                        txt = bytes.fromhex(t[3]).decode()
+                        req = txt[4:].strip().strip("\0").split(" ") if txt.startswith("CMD ") else []
+                        if req and req[0] in FORMS and not all(DECIMAL.fullmatch(x) for x in req[1:]):
+                            return False
+                except (ValueError, UnicodeDecodeError, IndexError):
+                    pass
+            return True
         if not documented_forms_until_divergence(line, impl_answer, model_answer):
             return False
         if rel is None:
             return True
-        fd = first_diff(line, impl_answer, model_answer) or {}
-        idx = fd.get("op_index")
         if not isinstance(idx, int):
             return True
         try:
@@ -161,6 +205,8 @@ def correspond(run, corr, profiles, n_quick, n_thorough, in_domain=None):
         impl = run_impl(lines)
         model = fut.result()
     model = [mask_unobserved(a, b) for a, b in zip(impl, model)]
+    # a configuration both sides refuse is refused: with which exception class / exit path is not compared
+    model = [a if (a.startswith("cfgerr") and b.startswith("cfgerr")) else b for a, b in zip(impl, model)]
     nmask = sum(1 for a in impl if UNOBS.search(a))
     if nmask:
         corr.distribution["histories with a state group the harness cannot read in this tree (masked on both sides)"] = nmask
